@@ -17,6 +17,8 @@ import (
 	"encoding/hex"
 	"fmt"
 	"io"
+	"log/slog"
+	"net"
 	"os"
 	"os/exec"
 	"runtime"
@@ -26,6 +28,8 @@ import (
 
 	"github.com/miscreant/miscreant.go"
 
+	"example.com/scion-time/core/server"
+	"example.com/scion-time/core/timebase"
 	"example.com/scion-time/net/nts"
 	"example.com/scion-time/net/ntske"
 
@@ -387,6 +391,10 @@ func Run(t []string) string {
 		return fmt.Sprintf("ok uid=%s pt=%s", lib.Hex(pkt.UniqueID.ID), lib.Hex(pkt.Auth.PlainText))
 	case p[0] == "srv.reply" && len(p) == 3:
 		return srvReply(t, hexb(p[1]), hexb(p[2]))
+	case p[0] == "lsn.probe" && len(p) == 1:
+		return lsnProbe()
+	case p[0] == "lsn.send" && len(p) == 2:
+		return lsnSend(t, hexb(p[1]))
 	case p[0] == "cl.init" && len(p) == 4:
 		clData = ntske.Data{Cookie: hexlist(p[1]), C2sKey: hexb(p[2]), S2cKey: hexb(p[3]), Algo: ntske.AES_SIV_CMAC_256}
 		clReqID = nil
@@ -513,6 +521,131 @@ func srvReply(t []string, b, hdr []byte) string {
 	return "ok " + lib.Hex(buf)
 }
 
+// ---------------------------------------------------------------- the real IP listener on loopback
+
+var lsn struct {
+	started  bool
+	addr     *net.UDPAddr
+	provider *ntske.Provider
+}
+
+// wallClock is the system clock the listener reads (time.Now; never adjusted).
+type wallClock struct{}
+
+func (wallClock) Epoch() uint64                                { return 0 }
+func (wallClock) Now() time.Time                               { return time.Now() }
+func (wallClock) Drift(time.Duration) time.Duration            { return 0 }
+func (wallClock) Step(time.Duration)                           {}
+func (wallClock) Adjust(time.Duration, time.Duration, float64) {}
+func (wallClock) Sleep(d time.Duration)                        { time.Sleep(d) }
+
+func lsnStart() {
+	lsn.started = true
+	timebase.RegisterClock(wallClock{})
+	rand.Reader = &script{} // the provider's key becomes 32 zero bytes, id 1
+	lsn.provider = ntske.NewProvider()
+	l, err := net.ListenUDP("udp", &net.UDPAddr{IP: net.IPv4(127, 0, 0, 1)})
+	if err != nil {
+		panic(err)
+	}
+	port := l.LocalAddr().(*net.UDPAddr).Port
+	l.Close()
+	lsn.addr = &net.UDPAddr{IP: net.IPv4(127, 0, 0, 1), Port: port}
+	log := slog.New(slog.NewTextHandler(io.Discard, nil))
+	server.StartIPServer(context.Background(), log, lsn.addr, 0, lsn.provider)
+	time.Sleep(100 * time.Millisecond)
+}
+
+// exchange sends one datagram to the listener from a fresh socket and waits for a reply.
+func exchange(b []byte, wait time.Duration) ([]byte, bool) {
+	conn, err := net.DialUDP("udp", nil, lsn.addr)
+	if err != nil {
+		panic(err)
+	}
+	defer conn.Close()
+	if _, err := conn.Write(b); err != nil {
+		panic(err)
+	}
+	conn.SetReadDeadline(time.Now().Add(wait))
+	buf := make([]byte, 4096)
+	n, err := conn.Read(buf)
+	if err != nil {
+		return nil, false
+	}
+	return buf[:n], true
+}
+
+// lsnSend delivers b to the real IP listener (runIPServer behind a loopback socket, real provider)
+// and reports what comes back; afterwards a plain NTP request must still be answered. The branch
+// transcription runs on the same datagram first: it supplies the AEAD answers for the model and
+// must agree with the listener on reply / no reply and on the reply length.
+func lsnSend(t []string, b []byte) string {
+	if !lsn.started {
+		lsnStart()
+	}
+	key := lsn.provider.Current()
+	want := fmt.Sprintf("%d:%s", key.ID, lib.Hex(key.Value))
+	if c, _ := kv(t, "cur"); c != want {
+		return "bad-provider " + want
+	}
+	rnd = &script{}
+	rand.Reader = rnd
+	tr := lib.Try(func() string { return srvReply(t, b, make([]byte, 48)) })
+	trAns := "none"
+	if r, ok := OkHex(tr); ok {
+		trAns = fmt.Sprintf("ok len=%d", len(r))
+	} else if strings.HasPrefix(tr, "panic") {
+		trAns = tr
+	}
+	sentinel := make([]byte, 48)
+	sentinel[0] = 0x23
+	ans := ""
+	for attempt := 0; attempt < 2; attempt++ { // a disagreement is retried once (loaded machine)
+		rnd = &script{}
+		rand.Reader = rnd
+		wait := 300 * time.Millisecond
+		if trAns != "none" {
+			wait = 2 * time.Second
+		}
+		reply, ok := exchange(b, wait)
+		alive := false
+		for i := 0; i < 3 && !alive; i++ {
+			_, alive = exchange(sentinel, time.Second)
+		}
+		if !alive {
+			return "dead"
+		}
+		ans = "none"
+		if ok {
+			ans = fmt.Sprintf("ok len=%d", len(reply))
+		}
+		if ans == trAns {
+			return ans
+		}
+	}
+	return "disagree listener=" + strings.ReplaceAll(ans, " ", "_") + " transcription=" + strings.ReplaceAll(trAns, " ", "_")
+}
+
+// lsnProbe starts the listener and checks that loopback exchanges work in this environment.
+func lsnProbe() (res string) {
+	defer func() {
+		if r := recover(); r != nil {
+			res = "unavailable"
+		}
+	}()
+	if !lsn.started {
+		lsnStart()
+	}
+	sentinel := make([]byte, 48)
+	sentinel[0] = 0x23
+	for i := 0; i < 3; i++ {
+		if _, ok := exchange(sentinel, time.Second); ok {
+			return "ok"
+		}
+	}
+	return "unavailable"
+}
+
 // ---------------------------------------------------------------- guarded execution
 
 func runOne(line string) (ans string) {
@@ -598,11 +731,16 @@ var Timeout = 3 * time.Second
 
 // after a few kills the remaining ops get a short deadline so that a broken tree is reported quickly
 func timeout() time.Duration {
+	if listenerOp {
+		return 20 * time.Second
+	}
 	if Hangs >= 5 {
 		return 300 * time.Millisecond
 	}
 	return Timeout
 }
+
+var listenerOp bool
 
 // Hangs counts ops that had to be killed.
 var Hangs int
@@ -612,6 +750,7 @@ func Guarded(line string) (string, []string) {
 	if cur == nil {
 		cur = spawn()
 	}
+	listenerOp = strings.HasPrefix(line, "lsn.")
 	io.WriteString(cur.in, line+"\n")
 	select {
 	case l, ok := <-cur.lines:
